@@ -1,0 +1,281 @@
+//! Verification hooks (cargo feature `verif`).
+//!
+//! Purely additive instrumentation used by an external verification
+//! harness. With the feature off nothing in this module is compiled.
+//! Every knob is thread local, a fresh thread (or `reset`) gives the
+//! natural behaviour of the runtime.
+
+use std::cell::{Cell, RefCell};
+
+/// What should the allocator do at this allocation point
+#[derive(Debug, Clone, Copy, PartialEq, Eq)]
+pub enum GcDecision {
+  /// behave as without hooks (byte threshold)
+  Natural,
+
+  /// collect now
+  Force,
+
+  /// do not collect, even if the threshold was reached
+  Suppress,
+}
+
+/// Collection schedule mode
+#[derive(Debug, Clone, Copy, PartialEq, Eq)]
+pub enum GcMode {
+  /// unhooked behaviour
+  Natural,
+
+  /// never collect
+  Never,
+
+  /// collect at every allocation point
+  Every,
+
+  /// collect exactly at the listed allocation points
+  At,
+
+  /// collect at every k-th allocation point
+  Period(u64),
+}
+
+/// Which sweep should a collection use: 0 natural (every 10th full),
+/// 1 nursery, 2 full
+pub type SweepKind = u8;
+
+thread_local! {
+  static MODE: Cell<GcMode> = const { Cell::new(GcMode::Natural) };
+  static COUNTER: Cell<u64> = const { Cell::new(0) };
+  static POINTS: RefCell<Vec<(u64, SweepKind)>> = const { RefCell::new(Vec::new()) };
+  static DEFAULT_KIND: Cell<SweepKind> = const { Cell::new(0) };
+  static CURRENT_KIND: Cell<SweepKind> = const { Cell::new(0) };
+  static FORCE_NEXT: Cell<Option<SweepKind>> = const { Cell::new(None) };
+  static COLLECTIONS: Cell<u64> = const { Cell::new(0) };
+  static COLLECTIONS_WITH_TEMP_ROOTS: Cell<u64> = const { Cell::new(0) };
+  static LIVENESS: Cell<Option<fn(*const u8) -> bool>> = const { Cell::new(None) };
+  static HEADER_CHECKS: Cell<u64> = const { Cell::new(0) };
+}
+
+/// Restore natural behaviour and zero all counters
+pub fn reset() {
+  MODE.with(|m| m.set(GcMode::Natural));
+  COUNTER.with(|c| c.set(0));
+  POINTS.with(|p| p.borrow_mut().clear());
+  DEFAULT_KIND.with(|k| k.set(0));
+  CURRENT_KIND.with(|k| k.set(0));
+  FORCE_NEXT.with(|k| k.set(None));
+  COLLECTIONS.with(|c| c.set(0));
+  COLLECTIONS_WITH_TEMP_ROOTS.with(|c| c.set(0));
+  HEADER_CHECKS.with(|c| c.set(0));
+}
+
+/// Install a collection schedule. `points` is only used by `GcMode::At`
+pub fn set_gc_plan(mode: GcMode, default_kind: SweepKind, points: &[(u64, SweepKind)]) {
+  MODE.with(|m| m.set(mode));
+  DEFAULT_KIND.with(|k| k.set(default_kind));
+  POINTS.with(|p| {
+    let mut p = p.borrow_mut();
+    p.clear();
+    p.extend_from_slice(points);
+  });
+}
+
+/// Request a collection of the given kind at the next allocation point,
+/// whatever the mode is
+pub fn force_next(kind: SweepKind) {
+  FORCE_NEXT.with(|k| k.set(Some(kind)));
+}
+
+/// Number of allocation points seen so far
+pub fn alloc_points() -> u64 {
+  COUNTER.with(|c| c.get())
+}
+
+/// Number of collections that actually ran
+pub fn collections() -> u64 {
+  COLLECTIONS.with(|c| c.get())
+}
+
+/// Number of collections that ran while at least one temporary root was pushed
+pub fn collections_with_temp_roots() -> u64 {
+  COLLECTIONS_WITH_TEMP_ROOTS.with(|c| c.get())
+}
+
+/// Number of object header validity checks performed
+pub fn header_checks() -> u64 {
+  HEADER_CHECKS.with(|c| c.get())
+}
+
+/// Register a predicate deciding if the address of a managed block header
+/// lies in memory the harness considers live
+pub fn set_liveness_oracle(oracle: Option<fn(*const u8) -> bool>) {
+  LIVENESS.with(|l| l.set(oracle));
+}
+
+/// Called by the allocator at every allocation point
+pub fn gc_decide() -> GcDecision {
+  let n = COUNTER.with(|c| {
+    let v = c.get();
+    c.set(v + 1);
+    v
+  });
+
+  if let Some(kind) = FORCE_NEXT.with(|k| k.take()) {
+    CURRENT_KIND.with(|k| k.set(kind));
+    return GcDecision::Force;
+  }
+
+  let default_kind = DEFAULT_KIND.with(|k| k.get());
+  match MODE.with(|m| m.get()) {
+    GcMode::Natural => {
+      CURRENT_KIND.with(|k| k.set(default_kind));
+      GcDecision::Natural
+    },
+    GcMode::Never => GcDecision::Suppress,
+    GcMode::Every => {
+      CURRENT_KIND.with(|k| k.set(default_kind));
+      GcDecision::Force
+    },
+    GcMode::At => {
+      let hit = POINTS.with(|p| p.borrow().iter().find(|(at, _)| *at == n).map(|(_, k)| *k));
+      match hit {
+        Some(kind) => {
+          CURRENT_KIND.with(|k| k.set(kind));
+          GcDecision::Force
+        },
+        None => GcDecision::Suppress,
+      }
+    },
+    GcMode::Period(k) => {
+      if k > 0 && (n + 1) % k == 0 {
+        CURRENT_KIND.with(|k| k.set(default_kind));
+        GcDecision::Force
+      } else {
+        GcDecision::Suppress
+      }
+    },
+  }
+}
+
+/// Sweep kind requested for the collection in progress
+pub fn sweep_kind() -> SweepKind {
+  CURRENT_KIND.with(|k| k.get())
+}
+
+/// Set the sweep kind for collections started outside an allocation point
+pub fn set_sweep_kind(kind: SweepKind) {
+  CURRENT_KIND.with(|k| k.set(kind));
+}
+
+/// Called when a collection actually runs
+pub fn note_collection(temp_roots: usize) {
+  COLLECTIONS.with(|c| c.set(c.get() + 1));
+  if temp_roots > 0 {
+    COLLECTIONS_WITH_TEMP_ROOTS.with(|c| c.set(c.get() + 1));
+  }
+}
+
+/// The number of object kinds. The raw kind byte of a live object header is
+/// always below this value
+pub const OBJECT_KIND_COUNT: u8 = {
+  use crate::object::ObjectKind as K;
+  let kinds = [
+    K::Channel as u8,
+    K::Class as u8,
+    K::Closure as u8,
+    K::Enumerator as u8,
+    K::Fun as u8,
+    K::Instance as u8,
+    K::List as u8,
+    K::Map as u8,
+    K::Method as u8,
+    K::Native as u8,
+    K::String as u8,
+    K::LyBox as u8,
+    K::Tuple as u8,
+  ];
+  let mut max = 0;
+  let mut i = 0;
+  while i < kinds.len() {
+    if kinds[i] > max {
+      max = kinds[i];
+    }
+    i += 1;
+  }
+  max + 1
+};
+
+/// Validate an object header before it's kind byte is interpreted
+#[inline]
+pub fn check_obj_header(header: *const u8, kind_byte: *const u8) {
+  HEADER_CHECKS.with(|c| c.set(c.get() + 1));
+  let raw = unsafe { std::ptr::read_volatile(kind_byte) };
+  if raw >= OBJECT_KIND_COUNT {
+    panic!(
+      "VERIF-HEAP: invalid object kind byte {:#x} at {:p} (use after free?)",
+      raw, header
+    );
+  }
+  check_live(header);
+}
+
+/// Validate that a managed header lies in live memory
+#[inline]
+pub fn check_live(header: *const u8) {
+  if let Some(oracle) = LIVENESS.with(|l| l.get()) {
+    if !oracle(header) {
+      panic!("VERIF-HEAP: header at {:p} read after its block was released", header);
+    }
+  }
+}
+
+/// A summary of the allocator's bookkeeping
+#[derive(Debug, Clone, Default)]
+pub struct HeapStats {
+  /// reported byte total
+  pub bytes_allocated: usize,
+
+  /// the byte total at which the next natural collection triggers
+  pub next_gc: usize,
+
+  /// how many collections were started
+  pub gc_count: u128,
+
+  /// number of entries in the non object heap
+  pub heap: usize,
+
+  /// number of entries in the old object heap
+  pub obj_heap: usize,
+
+  /// number of entries in the nursery
+  pub nursery: usize,
+
+  /// number of temporary roots
+  pub temp_roots: usize,
+}
+
+/// One managed block
+#[derive(Debug, Clone, Copy)]
+pub struct HeapBlock {
+  /// address handed out by the system allocator
+  pub addr: usize,
+
+  /// the size the runtime accounts for this block
+  pub size: usize,
+
+  /// object kind byte, or 255 for non object blocks
+  pub kind: u8,
+}
+
+/// One interned string entry
+#[derive(Debug, Clone, Copy)]
+pub struct InternEntry {
+  /// address of the key's bytes
+  pub key_addr: usize,
+
+  /// length of the key in bytes
+  pub key_len: usize,
+
+  /// address of the string object's block
+  pub obj_addr: usize,
+}
